@@ -88,6 +88,22 @@ func (e *Query) writeTo(s *strings.Builder) {
 	}
 }
 
+// isValue reports whether the query is the input itself, a variable or a
+// literal, the evaluation of which never extends a path.
+func (e *Query) isValue() bool {
+	if e.Term == nil || len(e.Term.SuffixList) > 0 {
+		return false
+	}
+	switch e.Term.Type {
+	case TermTypeIdentity, TermTypeNull, TermTypeTrue, TermTypeFalse, TermTypeNumber:
+		return true
+	case TermTypeFunc:
+		return e.Term.Func.Name[0] == '$'
+	default:
+		return false
+	}
+}
+
 func (e *Query) toIndexKey() any {
 	if e.Term == nil {
 		return nil
